@@ -3,8 +3,8 @@
     [symb n K] checks exact symmetry of the n x n float kernel matrix; [psd_cert n K L dq] (C13/PsdCert.v) takes ANY
     matrix L as a hint (the harness sends an approximate Cholesky factor of K + dq/2 I) and accepts iff
     K + dq I - L L^T, computed exactly over the integers, is symmetric and diagonally dominant with non-negative
-    diagonal.  The oracle of C13/Corr.v evaluates it for every fit with n <= psd_limit = 64 (all cases that are
-    replayed in the quick tier); rounding of the kernel values costs the term dq/2 |a' - a|^2, dq = n max|K| 2^-45. *)
+    diagonal.  The oracle of C13/Corr.v evaluates it for every fit with n <= psd_limit = 130 (every case of
+    the quick tier); rounding of the kernel values costs the term dq/2 |a' - a|^2, dq = n max|K| 2^-45. *)
 From Coq Require Import List NArith QArith Qreals Reals.
 From LinfaVerif Require Import Common.QF Common.LDL C13.Spec C13.Check C13.PsdCert C13.Proofs C13.ProofsNu C13.ProofsCert.
 Import ListNotations.
